@@ -22,7 +22,9 @@ _FUNCS = {'bytes': bytes, 'bytearray': bytearray, 'range': range,
           'reversed': reversed, 'sorted': sorted, 'enumerate': enumerate}
 _METHODS = {'join', 'encode', 'decode', 'translate', 'replace', 'lower',
             'upper', 'strip', 'split', 'index', 'find', 'items', 'keys',
-            'values', 'get', 'format'}
+            'values', 'get', 'format', 'copy', 'startswith', 'endswith',
+            'lstrip', 'rstrip', 'partition', 'rpartition', 'isidentifier',
+            'count'}
 _STATIC = {('bytes', 'maketrans'): bytes.maketrans,
            ('str', 'maketrans'): str.maketrans,
            ('bytes', 'fromhex'): bytes.fromhex,
@@ -75,6 +77,17 @@ def fold(expr, globals_, env=None, _depth=0):
             raise NotConstant(str(exc))
     if isinstance(expr, ast.UnaryOp) and isinstance(expr.op, ast.USub):
         return -ev(expr.operand)
+    if isinstance(expr, ast.UnaryOp) and isinstance(expr.op, ast.Not):
+        return not ev(expr.operand)
+    if isinstance(expr, ast.BoolOp):
+        v = None
+        for x in expr.values:
+            v = ev(x)
+            if isinstance(expr.op, ast.And) and not v:
+                return v
+            if isinstance(expr.op, ast.Or) and v:
+                return v
+        return v
     if isinstance(expr, ast.Subscript):
         v = ev(expr.value)
         sl = expr.slice
@@ -88,12 +101,18 @@ def fold(expr, globals_, env=None, _depth=0):
             raise
         except Exception as exc:
             raise NotConstant(str(exc))
-    if isinstance(expr, (ast.ListComp, ast.GeneratorExp, ast.SetComp)):
+    if isinstance(expr, (ast.ListComp, ast.GeneratorExp, ast.SetComp,
+                         ast.DictComp)):
         out = []
 
         def gen(i, env2):
             if i == len(expr.generators):
-                out.append(fold(expr.elt, globals_, env2, _depth + 1))
+                if isinstance(expr, ast.DictComp):
+                    out.append((fold(expr.key, globals_, env2, _depth + 1),
+                                fold(expr.value, globals_, env2,
+                                     _depth + 1)))
+                else:
+                    out.append(fold(expr.elt, globals_, env2, _depth + 1))
                 return
             g = expr.generators[i]
             it = fold(g.iter, globals_, env2, _depth + 1)
@@ -114,6 +133,8 @@ def fold(expr, globals_, env=None, _depth=0):
                 if all(fold(c, globals_, e3, _depth + 1) for c in g.ifs):
                     gen(i + 1, e3)
         gen(0, dict(env))
+        if isinstance(expr, ast.DictComp):
+            return dict(out)
         return set(out) if isinstance(expr, ast.SetComp) else out
     if isinstance(expr, ast.Call):
         args = [ev(a) for a in expr.args]
@@ -137,7 +158,8 @@ def fold(expr, globals_, env=None, _depth=0):
                     return _STATIC[(f.value.id, f.attr)](*args)
                 if f.attr in _METHODS:
                     recv = ev(f.value)
-                    if isinstance(recv, (str, bytes, bytearray, dict)):
+                    if isinstance(recv, (str, bytes, bytearray, dict, list,
+                                         tuple)):
                         r = getattr(recv, f.attr)(*args)
                         return list(r) if f.attr in (
                             'items', 'keys', 'values') else r
